@@ -17,15 +17,15 @@ import vlib
 
 META = {
     "category": "proof",
-    "text": "Coq theorems (Gc/Props_C05.v, closed under the global context) over an executable model of sst/src/gc.rs (policy AST, the stateful boxed determiners, GarbageCollector::next with key tracking, tombstone buffer and two-step return) and of the loop of lsmtk perform_garbage_collection: for every policy of the language (versions/ttl/any/all nesting), every clock value, every input with adjacent equal keys of any length the collector returns exactly what a cursor-free specification of the policy retains; on strictly sorted merged inputs the lock-step walk never goes out of sync, writes exactly the specified entries, discard is the setsum of exactly the dropped ones and input = output + discard; with versions = N (and with every policy that retains a sole newest version, as lsmtk evaluates it) every key reads after a GC as before — a deciding value is itself kept, a deciding tombstone goes only with everything below it or is replaced by the oldest tombstone of its run; GC only at the last level.  Tied to the code by 4-way differential runs (real Rust vs extracted model vs extracted spec vs independent Python semantics), a transcription of the walk over real SST files, and real lsmtk stores single-stepped through garbage collections with before/after multiset comparison of complete dumps.",
-    "note": "Multiset conservation through apply_compaction / the multi-builder (the non-GC half) is proved in area Lsm, here it is only observed on real runs.  Trusted: Coq kernel; extraction + ocaml/gc driver; harness c05/lsm; the nom parser is compared with a reference parser on generated strings, not proved; cursors are modelled as lists (I/O errors of next() outside the model); (key,timestamp) pairs of a compaction's inputs are assumed distinct for the walk theorems; SHA3-256 is an arbitrary function to 32 bytes.  Known classes: K-retain-nothing — a policy that does not retain even a sole newest version (e.g. `any()`) makes a GC drop current values, by the letter of the policy; K1-inputs-not-closed (repaired by fix 764f777, a reappearance is a violation) — the lsmtk selector could emit a top-level compaction that skips an overlapping file of a level in between (F16/K1), the GC then drops a tombstone while a value it shadows survives outside the inputs and the deleted key reads again (9-write reproduction in corpus/C05/30_lsm_k1_gc_resurrects.json); the tree-level theorem has exactly the missing closure as its hypothesis.",
+    "text": "Coq theorems (Gc/Props_C05.v, closed under the global context). FIRST HALF, over area Lsm's tree model: for every admissible compaction and every cut of the sorted merge of its inputs into non-empty files, Permutation (file_entries (apply_compaction v c outs)) (file_entries v); perform_compaction's loop through a model of SstMultiBuilder (arbitrary size thresholds, arbitrary split hints) writes every entry exactly once, in order, no empty file, and its outputs are such a cut. SECOND HALF, over an executable model of sst/src/gc.rs (policy AST, the stateful boxed determiners, GarbageCollector::next with key tracking, tombstone buffer, two-step return; a literal loop-by-loop transcription proved equal) and of the loop of lsmtk perform_garbage_collection: for every policy (versions/ttl/any/all nesting), every clock value, every input with adjacent equal keys the collector returns exactly what a cursor-free specification retains; on strictly sorted merged inputs the walk never goes out of sync, writes exactly the specified entries, discard is the setsum of exactly the dropped ones, input = output + discard; with versions = N (and every policy that retains a sole newest version, as lsmtk evaluates it) every key reads after a GC as before; GC only at the last level. JOINED to Lsm: the merged inputs of an admissible top-level compaction of an Ordered store are strictly sorted, what the collector retains is accepted by Lsm's gc_outputs_okb (so Lsm's gc_preserves_reads applies), the closure precondition of the tree-level read theorem follows from Ordered + valid_compactionb, and tree entries after + dropped = tree entries before. Tied to the code by 4-way differential runs (real Rust vs extracted model vs extracted spec vs independent Python semantics), walks over real SST files (also with duplicate key/timestamp pairs across files), the real SstMultiBuilder, and real lsmtk stores single-stepped through moves, non-GC merges (also above last-level data and with more than ten outputs) and garbage collections, comparing complete multi-version dumps as multisets, the key order of every level, and the store's own gets after every step.",
+    "note": "Coverage of the store sessions is gated: a run without a non-GC merge, without a tombstone that has nothing beneath it in such a merge, or without a merge of more than ten outputs is a machinery error, not a pass.  Trusted: Coq kernel; extraction + ocaml/gc driver; harness c05/lsm; the nom parser is compared with a reference parser on generated strings, not proved; cursors are modelled as lists (I/O errors of next() outside the model); builder sizes are arbitrary predicates in the multi-builder model; the selector is area Lsm's subject (its admissibility predicate is a hypothesis here); SHA3-256 is an arbitrary function to 32 bytes.  Known classes: K-retain-nothing — a policy that does not retain even a sole newest version (e.g. `any()`) makes a GC drop current values, by the letter of the policy; K-duplicate-keyref — with several input entries of equal key AND timestamp (foreign ingests only) the walk matches KeyRefs leftmost and can write a tombstone where the policy retains the value of the same KeyRef (KeyRefs written, no out-of-sync and written + dropped = input are still guaranteed).  The former class K1 (top-level GC over inputs not closed under overlap) was repaired by /repo 764f777; its reproduction stays in the corpus and a reappearance is a violation.",
 }
 
 PROPS = "theories/Gc/Props_C05.v"
 MODULE = "Gc.Props_C05"
 U64 = 2 ** 64 - 1
 KNOWN_CLASS = "K-retain-nothing"
-KNOWN_K1 = "K1-inputs-not-closed"
+KNOWN_DUP = "K-duplicate-keyref"
 
 # ---------------------------------------------------------------- policies (Python side)
 # AST: ("v", n) | ("t", n) | ("a", [..]) | ("l", [..])
@@ -360,7 +360,15 @@ LSM_POLICIES = [("v", 1), ("v", 1), ("v", 2), ("v", 3), ("t", 5), ("a", []),
                 ("l", [("v", 2), ("t", 1)]), ("a", [("v", 1), ("v", 3)]), ("l", [("v", 1), ("a", [])])]
 
 
+def _drain(ops, keys, n):
+    for _ in range(n):
+        ops.append("compact")
+        ops.append("dump")
+        ops.append("getall " + ",".join(keys))
+
+
 def lsm_script(rng):
+    """random bursts of small overlapping memtables, compaction steps in between"""
     nkeys = rng.choice([2, 3, 4, 6, 12, 20])
     keys = ["%02x" % (0x61 + i) for i in range(nkeys)]
     ops = []
@@ -368,9 +376,7 @@ def lsm_script(rng):
     for _ in range(rng.range(3, 9)):
         burst = rng.choice([1, 1, 1, 2, 3, 5])
         if l0 + burst > 8:
-            for _ in range(80):
-                ops.append("compact")
-                ops.append("dump")
+            _drain(ops, keys, 80)
             l0 = 0
         for _ in range(burst):
             lo = rng.below(nkeys)
@@ -385,40 +391,121 @@ def lsm_script(rng):
             l0 += 1
         ops.append("dump")
         c = rng.choice([0, 0, 1, 2, 16, 34, 80])
-        for _ in range(c):
-            ops.append("compact")
-            ops.append("dump")
+        _drain(ops, keys, c)
         if c >= 16:
             l0 = 0
-    for _ in range(80):
-        ops.append("compact")
-        ops.append("dump")
-    return ops
-
-
-def lsm_session(chk, lsmbin, mx, idx, rng, stats, model_cases):
-    pol = rng.choice(LSM_POLICIES)
-    ops = lsm_script(rng)
+    _drain(ops, keys, 80)
     opts = ["--memtable-size-bytes", "4096", "--sst-target-file-size", str(rng.choice([300, 500, 4096])),
-            "--sst-minimum-file-size", "200", "--sst-target-block-size", "100", "--gc-policy", pol_display(pol)]
-    return lsm_eval(chk, lsmbin, idx, pol, opts, ops, stats, model_cases)
+            "--sst-minimum-file-size", "200", "--sst-target-block-size", "100"]
+    return "bursts", opts, ops
 
 
-def lsm_eval(chk, lsmbin, idx, pol, opts, ops, stats, model_cases):
-    """one real store, single-stepped; returns list of problems (dicts)"""
+def lsm_script_deep(rng):
+    """a merge ABOVE the last level over data of the last level: a large base file sinks to the
+    last level, a small file of tombstones/overwrites parks one level above it (merging into the
+    large file scores below zero), further layers park above that and are then merged with it
+    into the level above the last one: a compaction that is not a GC although tombstones in its
+    inputs have nothing beneath them in the inputs"""
+    small = rng.chance(1, 2)
+    nv = rng.range(1, 3)
+    victims = ["6b%02x" % (0x30 + 7 * i) for i in range(nv)]
+    fillers_lo = ["61%02x" % i for i in range(40)]
+    fillers_hi = ["7a%02x" % i for i in range(40)]
+    keys = list(victims)
+    ops = []
+    for v in victims:
+        ops.append("put %s %s" % (v, "6f6c64%02x" % rng.below(256)))
+    ops.append("put 6b7070 %s" % ("70" * rng.choice([12000, 16000, 24000, 30000])))
+    ops.append("flush")
+    ops.append("dump")
+    _drain(ops, keys, 20)
+    # the layer that must survive: tombstones (and some overwrites) of the victims
+    for i, v in enumerate(victims):
+        if i == 0 or rng.chance(2, 3):
+            ops.append("del %s" % v)
+        else:
+            ops.append("put %s %02x" % (v, rng.below(256)))
+    ops.append("flush")
+    ops.append("dump")
+    _drain(ops, keys, 20)
+    for layer in range(rng.range(2, 4)):
+        n = rng.range(1, 3) if not small else rng.range(6, 25)
+        width = rng.choice([60, 100, 512, 800]) if not small else rng.choice([40, 60, 90])
+        for side in (fillers_lo, fillers_hi):
+            for k in sorted(set(rng.choice(side) for _ in range(n))):
+                keys.append(k) if k not in keys else None
+                if rng.chance(1, 6):
+                    ops.append("del %s" % k)
+                else:
+                    ops.append("put %s %s" % (k, ("%02x" % rng.below(256)) * width))
+        if rng.chance(1, 4):
+            ops.append("del %s" % rng.choice(victims))
+        ops.append("flush")
+        ops.append("dump")
+        _drain(ops, keys, 24)
+    _drain(ops, keys, 30)
+    opts = ["--memtable-size-bytes", "100000000"]
+    if small:
+        opts += ["--sst-target-file-size", str(rng.choice([150, 300])), "--sst-minimum-file-size", "60", "--sst-target-block-size", "64"]
+    return "deep-merge", opts, ops
+
+
+def lsm_script_wide(rng):
+    """two or three overlapping memtables of a few dozen keys each, then compaction to quiescence
+    with a target file size small enough that one merge writes more than ten output files"""
+    keys = ["6b%02x" % i for i in range(64)]
+    ops = []
+    for rnd in range(rng.range(1, 3)):
+        for f in range(rng.choice([2, 2, 3])):
+            n = rng.range(22, 44)
+            chosen = sorted(set(rng.choice(keys) for _ in range(n)))
+            for k in chosen:
+                if rng.chance(1, 5):
+                    ops.append("del %s" % k)
+                else:
+                    ops.append("put %s %s" % (k, ("%02x" % rng.below(256)) * rng.range(30, 100)))
+            ops.append("flush")
+        ops.append("dump")
+        _drain(ops, keys, 70)
+    opts = ["--memtable-size-bytes", "100000000", "--sst-target-file-size", str(rng.choice([150, 300])),
+            "--sst-minimum-file-size", str(rng.choice([60, 100])), "--sst-target-block-size", str(rng.choice([64, 100]))]
+    return "wide", opts, ops
+
+
+LSM_SCRIPTS = [lsm_script, lsm_script, lsm_script_deep, lsm_script_deep, lsm_script_wide]
+
+
+def lsm_session(chk, lsmbin, mx, idx, rng, stats, model_cases, top):
+    gen = LSM_SCRIPTS[idx % len(LSM_SCRIPTS)] if isinstance(idx, int) else lsm_script
+    pol = rng.choice(LSM_POLICIES)
+    if gen is lsm_script_deep and rng.chance(2, 3):
+        pol = ("v", 1)      # the default policy: the one under which a mis-dispatched merge loses the tombstone
+    name, opts, ops = gen(rng)
+    stats["lsm_sessions_" + name] += 1
+    return lsm_eval(chk, lsmbin, idx, pol, opts + ["--gc-policy", pol_display(pol)], ops, stats, model_cases, top)
+
+
+def _show(v):
+    return "." if v is None else ("-" if v == b"" else v.hex())
+
+
+def lsm_eval(chk, lsmbin, idx, pol, opts, ops, stats, model_cases, top):
+    """one real store, single-stepped; returns list of problems (dicts).  `top` = NUM_LEVELS - 1"""
     d = "/dev/shm/c05lsm.%d.%s" % (os.getpid(), idx)
     shutil.rmtree(d, ignore_errors=True)
     inp = os.path.join(chk.work, "lsm%s.in" % idx)
     with open(inp, "w") as fh:
         fh.write("\n".join(ops) + "\n")
     cmd = [lsmbin, d] + list(opts)
-    rc, out = vlib.sh(" ".join("'%s'" % c for c in cmd) + " < " + inp, timeout=300)
+    rc, out = vlib.sh(" ".join("'%s'" % c for c in cmd) + " < " + inp, timeout=600)
     shutil.rmtree(d, ignore_errors=True)
     lines = [ln for ln in out.split("\n") if ln]
     files = {}
     problems = []
     tree = None
     pending = None  # (tree_before, compact_line)
+    getalls = [o.split()[1].split(",") for o in ops if o.startswith("getall ")]
+    nget = 0
     replay = {"policy": pol_display(pol), "ops": ops, "cmd": cmd[2:]}
     if not lines or lines[0] != "OPEN ok":
         return [{"kind": "machinery", "what": "lsm did not open: %s" % out[:300]}]
@@ -435,6 +522,19 @@ def lsm_eval(chk, lsmbin, idx, pol, opts, ops, stats, model_cases):
             files[t[1]] = ents
         elif t[0] == "DUMP":
             new_tree = [x.split(":")[:2] for x in t[1:]]
+            # reachability is structural too: every level below L0 must list its files in key
+            # order without overlap (point reads bisect it, scans concatenate it)
+            try:
+                per_level = collections.OrderedDict()
+                for lvl, n in new_tree:
+                    per_level.setdefault(int(lvl), []).append(files[n])
+                for lvl, fs in per_level.items():
+                    if lvl >= 1 and any(not (f[-1][0] <= g[0][0]) for f, g in zip(fs, fs[1:])):
+                        problems.append({"kind": "property", "what": "level %d lists its files out of key order or overlapping: entries in them are not reachable through the tree" % lvl,
+                                         "after": pending[1] if pending else "flush", "level": [[f[0][0].hex(), f[-1][0].hex()] for f in fs][:40], "replay": replay})
+                        stats["lsm_level_order_bad"] += 1
+            except (KeyError, IndexError) as ex:
+                problems.append({"kind": "machinery", "what": "file contents unknown or empty: %s" % ex})
             if pending is not None:
                 before, cl = pending
                 pending = None
@@ -447,7 +547,8 @@ def lsm_eval(chk, lsmbin, idx, pol, opts, ops, stats, model_cases):
                 else:
                     lo, up, inputs = int(c[1]), int(c[2]), c[6].split(",")
                     stats["lsm_compactions"] += 1
-                    model_cases.append(("dispatch %d %d" % (len(inputs), up), "D move" if len(inputs) == 1 else ("D gc" if up == 15 else "D rewrite"), "lsm%s" % idx))
+                    is_gc = len(inputs) > 1 and up == top
+                    model_cases.append(("dispatch %d %d" % (len(inputs), up), "D move" if len(inputs) == 1 else ("D gc" if is_gc else "D rewrite"), "lsm%s" % idx))
                     try:
                         ents_before = collections.Counter(e for _, n in before for e in files[n])
                         ents_after = collections.Counter(e for _, n in new_tree for e in files[n])
@@ -459,7 +560,7 @@ def lsm_eval(chk, lsmbin, idx, pol, opts, ops, stats, model_cases):
                     if len(inputs) == 1:
                         stats["lsm_moves"] += 1
                         dropped, written = [], merged
-                    elif up == 15:
+                    elif is_gc:
                         stats["lsm_gcs"] += 1
                         keep = spec_retained(pol, 0, merged)
                         written = [merged[i] for i in keep]
@@ -471,20 +572,41 @@ def lsm_eval(chk, lsmbin, idx, pol, opts, ops, stats, model_cases):
                                             "W OK w=%s d=%s" % (",".join(ent_tok(e) for e in written) or ".", ",".join(ent_tok(e) for e in dropped) or "."),
                                             "lsm%s" % idx))
                     else:
+                        # NOT a garbage collection (upper level is not the last): nothing may go,
+                        # not even a tombstone with nothing beneath it in the inputs
                         stats["lsm_rewrites"] += 1
+                        stats["lsm_rewrite_entries"] += len(merged)
+                        stats["lsm_rewrite_tombstones"] += sum(1 for e in merged if e[2] is None)
+                        heads = {}
+                        for e in merged:
+                            heads.setdefault(e[0], e)
+                        stats["lsm_rewrite_bare_tombstone_keys"] += sum(1 for k, e in heads.items() if e[2] is None and not any(x[0] == k and x[2] is not None for x in merged))
                         dropped, written = [], merged
                     expect = ents_before - collections.Counter(dropped)
+                    bn = collections.Counter(n for _, n in before)
+                    an = collections.Counter(n for _, n in new_tree)
+                    fresh = an - (bn - collections.Counter(inputs))
+                    newfiles = []           # the outputs, in the order the upper level lists them
+                    for _, n in new_tree:
+                        if fresh[n] > 0:
+                            fresh[n] -= 1
+                            newfiles.append(n)
+                    if len(inputs) > 1:
+                        stats["lsm_outputs_max"] = max(stats["lsm_outputs_max"], len(newfiles))
+                        if len(newfiles) > 10:
+                            stats["lsm_merges_over_10_outputs"] += 1
+                        if not is_gc:
+                            stats["lsm_rewrite_outputs_max"] = max(stats["lsm_rewrite_outputs_max"], len(newfiles))
+                            keys_split = sum(1 for f, g in zip(newfiles, newfiles[1:]) if files[f][-1][0] == files[g][0][0])
+                            stats["lsm_rewrite_keys_straddling_outputs"] += keys_split
                     if ents_after != expect or sum((collections.Counter(dropped) - ents_before).values()):
                         lost = expect - ents_after
                         extra = ents_after - expect
-                        inside = (not keeps_newest(pol)) and False
-                        problems.append({"kind": "property", "what": "entries reachable through the tree after the compaction differ from (before - what the policy allows to drop)",
+                        problems.append({"kind": "property", "what": ("entries reachable through the tree after the GC differ from (before - what the policy allows to drop)" if is_gc else
+                                                                      "a compaction that is not a garbage collection (upper level %d is not the last level %d) changed the multiset of entries" % (up, top)),
                                          "compaction": cl, "lost": [ent_tok(e) for e in lost.elements()][:20], "extra": [ent_tok(e) for e in extra.elements()][:20], "replay": replay})
                     else:
                         # outputs (files that are new in the tree) hold exactly `written`, each sorted
-                        bn = collections.Counter(n for _, n in before)
-                        an = collections.Counter(n for _, n in new_tree)
-                        newfiles = list((an - (bn - collections.Counter(inputs))).elements())
                         outs = [e for n in newfiles for e in files[n]]
                         if len(inputs) > 1 and collections.Counter(outs) != collections.Counter(written):
                             problems.append({"kind": "property", "what": "output files do not hold exactly the retained entries", "compaction": cl, "replay": replay})
@@ -497,24 +619,30 @@ def lsm_eval(chk, lsmbin, idx, pol, opts, ops, stats, model_cases):
                         if not visible_same(eb, ea):
                             vb, va = visible(eb), visible(ea)
                             changed = [k for k in set(vb) | set(va) if vb.get(k) != va.get(k)]
-                            rest = list((ents_before - collections.Counter(merged)).elements())
-                            # class K1 (C05_tree_read_refuted / _outside_known): a version of the key
-                            # outside the inputs that is not newer than one inside
-                            k1 = all(any(x[0] == k and y[0] == k and x[1] <= y[1] for x in rest for y in merged) for k in changed)
                             if not keeps_newest(pol):
                                 chk.known(KNOWN_CLASS, "policy `%s` does not retain a key's sole newest version: a real lsmtk GC dropped current values" % pol_display(pol))
                                 stats["lsm_known_hits"] += 1
-                            elif k1 and len(inputs) > 1 and up == 15 and any(
-                                    kf[0] == "known" and kf[1] == KNOWN_K1 for kf in vlib.known_findings("C05")):
-                                # (the class was repaired by /repo commit 764f777 and is no longer
-                                # listed as known: a reappearance is reported as a violation below)
-                                chk.known(KNOWN_K1, "a real lsmtk GC whose inputs skip an overlapping file of a level in between dropped a tombstone while a value it shadows survived outside: deleted key reads again (e.g. %s)" % cl[:40])
-                                stats["lsm_k1_hits"] += 1
                             else:
                                 problems.append({"kind": "property", "what": "a key reads differently after the compaction", "compaction": cl, "keys": [k.hex() for k in changed], "replay": replay})
             tree = new_tree
         elif t[0] == "COMPACT":
             pending = (tree, ln)
+        elif t[0] == "GET" and nget < len(getalls):
+            # what the store itself answers (memtable is empty here: every write is followed by a
+            # flush before the next compaction step) against the newest entry per key in the tree
+            ks = getalls[nget]
+            nget += 1
+            if tree is not None and len(t) - 1 == len(ks):
+                try:
+                    vis = visible([e for _, n in tree for e in files[n]])
+                except KeyError:
+                    vis = None
+                if vis is not None:
+                    stats["lsm_gets_compared"] += len(ks)
+                    bad = [(k, g) for k, g in zip(ks, t[1:]) if ("." if g == "~" else g) != _show(vis.get(bytes.fromhex(k)))]
+                    if bad:
+                        problems.append({"kind": "property", "what": "get does not return the newest entry the tree holds for the key: the entry is in a file of the tree but not reachable through it",
+                                         "keys": [(k, g, _show(vis.get(bytes.fromhex(k)))) for k, g in bad][:10], "replay": replay})
         elif t[0] == "PANIC" and len(t) > 1 and t[1] == "compact":
             pending = None
             problems.append({"kind": "property", "what": "a compaction panicked: " + ln, "replay": replay})
@@ -704,14 +832,115 @@ def run(chk):
                     else:
                         prop_bad.append(dict(case, what="a key reads differently after the GC although the policy retains a newest version"))
 
+    # ---- walk over real SSTs in which several files hold an entry with the same key AND
+    # timestamp (reachable only through foreign ingests): the tie order is the real cursor's, the
+    # model runs on that order; guaranteed (C05_walk_weakly_sorted_guarantee): no out-of-sync, the
+    # KeyRefs written are the KeyRefs the policy retains, written + dropped = input.  Where the
+    # ENTRIES written differ from the entries the policy retains: known class K-duplicate-keyref.
+    n_dup = 400 if quick else 8000
+    dup_lines, dup_meta = [], []
+    for i in range(n_dup):
+        p = gen_policy(rng, 0)
+        es = [e for e in gen_entries(rng, 0, p, "sorted") if not (e[0] == b"" and e[1] == U64)]
+        if not es:
+            continue
+        nf = rng.range(2, 4)
+        placed = [[] for _ in range(nf)]
+        for e in es:
+            placed[rng.below(nf)].append(e)
+        # duplicates: the same (key, ts) again in another file, as tombstone or value
+        for _ in range(rng.range(1, 4)):
+            k, t, v = rng.choice(es)
+            f = rng.below(nf)
+            if any(x[0] == k and x[1] == t for x in placed[f]):
+                continue
+            placed[f].append((k, t, None if rng.chance(1, 2) else rng.bytes(rng.choice([0, 1, 2]))))
+        if rng.chance(1, 3):
+            # directed: a value and tombstones with its key and timestamp in the other files
+            vals = [e for e in es if e[2] is not None]
+            if vals:
+                k, t, v = rng.choice(vals)
+                for f in range(nf):
+                    if not any(x[0] == k and x[1] == t for x in placed[f]):
+                        placed[f].append((k, t, None))
+        placed = [sorted(f, key=lambda e: (e[0], -e[1])) for f in placed if f]
+        toks = " ".join("%d:%s" % (fi, ent_tok(e)) for fi, f in enumerate(placed) for e in f)
+        dup_lines.append("walkm %s %d %s" % (pol_render(p, rng).encode().hex(), len(placed), toks))
+        dup_meta.append((p, [e for f in placed for e in f]))
+    if dup_lines:
+        rcd, dup_out = run_lines(hxbin, dup_lines, chk.work, "dup_impl")
+        dup_model = []
+        for (p, allents), io in zip(dup_meta, dup_out):
+            mm = io.split(" ")
+            merged = [] if len(mm) < 3 or not mm[2].startswith("m=") or mm[2] == "m=." else [parse_ent(x) for x in mm[2][2:].split(",")]
+            dup_model.append("walk %s %s" % (pol_ast(p), " ".join(ent_tok(e) for e in merged)))
+        rcd2, dup_mout = run_lines(mx, dup_model, chk.work, "dup_model")
+        for (p, allents), il, io, ml, mo in zip(dup_meta, dup_lines, dup_out, dup_model, dup_mout):
+            case = {"tag": "dupwalk", "kind": "walkm", "impl_line": il, "impl_out": io[:3000], "model_out": mo[:3000], "policy": pol_display(p)}
+            stats["dupwalk"] += 1
+            if not io.startswith("W OK m="):
+                prop_bad.append(dict(case, what="walk over SSTs sharing (key, timestamp) pairs did not complete (out of sync / build error / panic)", expect="W OK ..."))
+                continue
+            f = io.split(" ")
+            merged = [] if f[2] == "m=." else [parse_ent(x) for x in f[2][2:].split(",")]
+            written = [] if f[3] == "w=." else [parse_ent(x) for x in f[3][2:].split(",")]
+            dropped = [] if f[4] == "d=." else [parse_ent(x) for x in f[4][2:].split(",")]
+            keep = spec_retained(p, 0, merged)
+            spec_w = [merged[i] for i in keep]
+            if collections.Counter(merged) != collections.Counter(allents):
+                corr_bad.append(dict(case, what="the real MergingCursor did not yield exactly the entries of the files"))
+            elif [e[:2] for e in written] != [e[:2] for e in spec_w] or collections.Counter(written) + collections.Counter(dropped) != collections.Counter(merged):
+                prop_bad.append(dict(case, what="weakly sorted input: the KeyRefs written are not the KeyRefs the policy retains, or written + dropped is not the input",
+                                     expect="KeyRefs " + " ".join(kr_tok(e) for e in spec_w)))
+            elif "W OK w=%s d=%s" % (f[3][2:], f[4][2:]) != mo:
+                corr_bad.append(dict(case, what="walk with duplicate pairs differs from the extracted model run on the real merge order", model_line=ml[:3000]))
+            elif written != spec_w:
+                stats["dupwalk_known"] += 1
+                chk.known(KNOWN_DUP, "several files hold an entry with the same key and timestamp: the walk matches KeyRefs leftmost and wrote %s where the policy retains %s" % (
+                    ",".join(ent_tok(e) for e in written if e not in spec_w)[:60] or "-", ",".join(ent_tok(e) for e in spec_w if e not in written)[:60] or "-"))
+            else:
+                stats["dupwalk_same_as_spec"] += 1
+
+    # ---- the real SstMultiBuilder driven as perform_compaction's loop drives it: whatever the
+    # thresholds and hints, the files in the order seal() returns them hold the input, in order,
+    # and none is empty (C05_rewrite_writes_everything_once)
+    n_mb = 300 if quick else 6000
+    mb_lines, mb_meta = [], []
+    for i in range(n_mb):
+        es = [e for e in gen_entries(rng, 0, ("v", 1), "sorted") if not (e[0] == b"" and e[1] == U64)]
+        if rng.chance(1, 3):
+            es = sorted(set((rng.choice(KEYS) + bytes([rng.below(4)]), rng.below(50), None if rng.chance(1, 4) else rng.bytes(rng.choice([0, 5, 40, 90]))) for _ in range(rng.range(5, 60))), key=lambda e: (e[0], -e[1]))
+            seen = set()
+            es = [e for e in es if not (e[:2] in seen or seen.add(e[:2]))]
+        if not es:
+            continue
+        target, minimum = rng.choice([(150, 60), (300, 100), (64, 1), (1, 1), (100000, 1), (4096, 200), (200, 200)])
+        hq = rng.choice([0, 1, 3, 10])
+        mb_lines.append("mb %d %d %s" % (target, minimum, " ".join("%d:%s" % (1 if rng.below(10) < hq else 0, ent_tok(e)) for e in es)))
+        mb_meta.append(es)
+    if mb_lines:
+        rcm0, mb_out = run_lines(hxbin, mb_lines, chk.work, "mb_impl")
+        for es, il, io in zip(mb_meta, mb_lines, mb_out):
+            stats["mb"] += 1
+            case = {"tag": "mb", "kind": "mb", "impl_line": il[:3000], "impl_out": io[:3000]}
+            if not io.startswith("M "):
+                prop_bad.append(dict(case, what="SstMultiBuilder failed on a strictly sorted stream", expect="M ..."))
+                continue
+            fl = [[parse_ent(x) for x in part.split(",")] if part else [] for part in io[2:].split("|")]
+            stats["mb_files"] += len(fl)
+            stats["mb_over_10_files"] += len(fl) > 10
+            if [e for f in fl for e in f] != es or any(not f for f in fl):
+                prop_bad.append(dict(case, what="the outputs of the multi-builder, in the order seal() returns them, are not the input stream (or a file is empty)",
+                                     expect="M " + ",".join(ent_tok(e) for e in es)[:2000]))
+
     # ---- real lsmtk stores, single-stepped
     n_lsm = 40 if quick else 1200
     lsm_problems = []
     lsm_model = []
     for fn, c in corpus_lsm:
-        lsm_problems += lsm_eval(chk, lsmbin, "c" + fn.split("_")[0], ref_parse(c["policy"]), c["cmd"], c["ops"], stats, lsm_model)
+        lsm_problems += lsm_eval(chk, lsmbin, "c" + fn.split("_")[0], ref_parse(c["policy"]), c["cmd"], c["ops"], stats, lsm_model, num_levels - 1)
     for i in range(n_lsm):
-        lsm_problems += lsm_session(chk, lsmbin, mx, i, rng.fork(), stats, lsm_model)
+        lsm_problems += lsm_session(chk, lsmbin, mx, i, rng.fork(), stats, lsm_model, num_levels - 1)
     if lsm_model:
         rcm, lm_out = run_lines(mx, [c[0] for c in lsm_model], chk.work, "lsm_model")
         for (line, exp, tag), got in zip(lsm_model, lm_out):
@@ -722,16 +951,20 @@ def run(chk):
             prop_bad.append(pr)
         else:
             raise RuntimeError("lsm session machinery: " + pr["what"])
-    if num_levels != 16:
-        chk.notes.append("NUM_LEVELS is %d: lsm oracle uses upper == NUM_LEVELS-1" % num_levels)
+    # coverage gate: the half "a compaction that is not a garbage collection conserves every
+    # version" is only observed if such compactions happened (and with tombstones that have
+    # nothing beneath them in the inputs, and with merges cut into more than ten files)
+    if not lsm_problems and (stats["lsm_rewrites"] == 0 or stats["lsm_rewrite_bare_tombstone_keys"] == 0 or stats["lsm_merges_over_10_outputs"] == 0):
+        raise RuntimeError("coverage gate: the store sessions produced %d non-GC merges (%d keys whose newest input entry is a tombstone with no value beneath it), %d merges with more than ten outputs: the scenarios no longer reach what they are meant to reach" % (
+            stats["lsm_rewrites"], stats["lsm_rewrite_bare_tombstone_keys"], stats["lsm_merges_over_10_outputs"]))
 
     chk.coverage.update({
-        "evaluations": n + stats["lsm_compactions"],
-        "distinct_nontrivial": len(distinct) + stats["lsm_gcs"],
-        "rule": "collector cases: policy tree (versions/ttl/any/all, depth<=3, numbers 1..5 and 2^64-1, ttl around now) rendered with random whitespace/trailing commas and parsed by the real parser; per-key version lists with tombstone runs, timestamps around every ttl threshold, 0 and 2^64-1; sorted / adjacent-but-shuffled / wild (impl vs model only) inputs; exhaustive value/tombstone patterns of one key up to length %d under 12 policies; walk cases over 1-4 real SST files; parser strings well-formed and a separate mutated stream; real lsmtk sessions (random put/del/flush, every compaction single-stepped with full dumps).  non-trivial = >=3 entries with at least one retained and one dropped; distinct = distinct case lines; plus real GCs observed" % (7 if quick else 10),
+        "evaluations": n + stats["lsm_compactions"] + stats["dupwalk"] + stats["mb"],
+        "distinct_nontrivial": len(distinct) + stats["lsm_gcs"] + stats["lsm_rewrites"],
+        "rule": "collector cases: policy tree (versions/ttl/any/all, depth<=3, numbers 1..5 and 2^64-1, ttl around now) rendered with random whitespace/trailing commas and parsed by the real parser; per-key version lists with tombstone runs, timestamps around every ttl threshold, 0 and 2^64-1; sorted / adjacent-but-shuffled / wild (impl vs model only) inputs; exhaustive value/tombstone patterns of one key up to length %d under 12 policies; walk cases over 1-4 real SST files; parser strings well-formed and a separate mutated stream; walks over SSTs sharing (key,timestamp) pairs run on the real merge order; the real SstMultiBuilder with tiny thresholds and random split hints; real lsmtk sessions of three kinds (bursts of small overlapping memtables; deep-merge: a large base sunk to the last level, tombstones parked above it, further layers merged with them ABOVE the last level; wide: merges of dozens of keys cut into more than ten files), every compaction single-stepped with full dumps, level order and gets.  non-trivial = >=3 entries with at least one retained and one dropped; distinct = distinct case lines; plus real GCs and non-GC merges observed" % (7 if quick else 10),
         "samples": [impl_lines[ncorpus + 300][:300], next((l for l in impl_lines if l.startswith("walk")), "")[:300]],
         "input_distribution": dict(stats), "corpus_cases": ncorpus,
-        "correspondence": "impl (Rust, release + overflow-checks) vs extracted Coq model vs extracted Coq spec vs independent Python reading of the policy; real parser vs reference parser; real lsmtk GC vs model walk vs Python",
+        "correspondence": "impl (Rust, release + overflow-checks) vs extracted Coq model vs extracted Coq spec vs independent Python reading of the policy; real parser vs reference parser; real lsmtk GC vs model walk vs Python; real moves/merges vs multiset conservation, level order and gets",
         "disagreements_impl_vs_model": len(corr_bad), "disagreements_impl_vs_spec": len(prop_bad),
         "trusted_base": [
             "Coq 8.16.1 kernel (coqc, full .vo build); vm_compute only for the concrete Examples and the refutation witness",
@@ -744,7 +977,9 @@ def run(chk):
         ],
     })
     chk.assumptions = [
-        "walk theorems: the merged input is strictly sorted in the KeyRef order, i.e. (key, timestamp) pairs of a compaction's inputs are distinct",
+        "'the walk writes exactly gc_spec': the merged input is strictly sorted in the KeyRef order, i.e. (key, timestamp) pairs of a compaction's inputs are distinct (proved of every admissible top-level compaction of an Ordered store: C05_merged_inputs_sorted); on weakly sorted input the weaker C05_walk_weakly_sorted_guarantee holds",
+        "tree-level theorems take area Lsm's wf_version, Ordered and valid_compactionb as hypotheses (C01 proves them invariant along accepted histories and checks the real selector against valid_compactionb step by step)",
+        "multi-builder model: the size thresholds are arbitrary predicates; file naming and the order of `paths` are modelled as creation order",
         "collector theorem: equal keys are adjacent in the cursor (implied by sortedness)",
         "I/O errors of Cursor::next are outside the model",
         "current-value theorems for arbitrary policies are for now_micros = 0 (what lsmtk passes); with a real clock ttl_micros drops current values by design",
